@@ -24,6 +24,9 @@ var commentReaders = map[string]string{
 	"linter.(*ignore).TeardownStatement":                   "falco-ignore directives",
 	"linter.(*ignore).SetupBlockStatement":                 "falco-ignore directives",
 	"linter.(*ignore).TeardownBlockStatement":              "falco-ignore directives",
+	"linter.(*ignore).SetupClause":                         "falco-ignore-start / -end in front of a clause keyword (parseIgnoreComment matches the directive word)",
+	"linter.(*Linter).lintIfStatement":                     "hands the comments in front of else if / else to (*ignore).SetupClause, nothing else",
+	"linter.(*Linter).lintSwitchStatement":                 "hands the comments in front of case / default / the closing brace to (*ignore).SetupClause, nothing else",
 	"linter.parseCustomLinterCall":                         "@plugin: annotations (HasPrefix \"@\")",
 	"linter.getSubroutineCallScope":                        "@scope / @recv … annotations through ast.Comments.Annotations (CutPrefix \"@\")",
 	"linter.getFileLevelScope":                             "@scope annotation of a snippet file",
@@ -449,7 +452,7 @@ func runC09(c *core.Ctx) {
 					top = top.Parent()
 				}
 				name := core.FnName(top)
-				if why, ok := commentReaders[name]; ok {
+				if why, ok := reviewedReader(prog, top); ok {
 					if !found[name+slot] {
 						found[name+slot] = true
 						c.Discharge("cmt.readers", name+"|"+slot, in.Pos(), "reviewed annotation parser: "+why)
@@ -481,7 +484,7 @@ func runC09(c *core.Ctx) {
 					top = top.Parent()
 				}
 				name := core.FnName(top)
-				if _, ok := commentReaders[name]; ok {
+				if _, ok := reviewedReader(prog, top); ok {
 					c.Discharge("cmt.readers", name+"|"+rn+"."+cal.Name(), in.Pos(), "reviewed annotation parser")
 				} else {
 					c.Report("cmt.readers", name+"|"+rn+"."+cal.Name(), in.Pos(), fmt.Sprintf("%s renders comment text (%s.%s) but is not one of the reviewed annotation parsers", name, rn, cal.Name()))
@@ -694,4 +697,56 @@ func checkMacroDetectors(c *core.Ctx) {
 		}
 	}
 	c.Floor("cmt.macro", 4)
+}
+
+// reviewedReader: fn is one of the reviewed annotation parsers, or an unexported helper that is called only by such
+// parsers (a piece extracted from them: it sees no comment they could not see).
+func reviewedReader(prog *core.Program, fn *ssa.Function) (string, bool) {
+	var visit func(f *ssa.Function, seen map[*ssa.Function]bool) (string, bool)
+	visit = func(f *ssa.Function, seen map[*ssa.Function]bool) (string, bool) {
+		if why, ok := commentReaders[core.FnName(f)]; ok {
+			return why, true
+		}
+		if seen[f] || token.IsExported(f.Name()) || f.Pkg == nil {
+			return "", false
+		}
+		seen[f] = true
+		rel := strings.TrimPrefix(strings.TrimPrefix(f.Pkg.Pkg.Path(), core.ModPath), "/")
+		callers := 0
+		why := ""
+		for _, g := range prog.ModuleFuncs(rel) {
+			if g.Pkg != f.Pkg {
+				continue
+			}
+			calls := false
+			for _, b := range g.Blocks {
+				for _, in := range b.Instrs {
+					if core.StaticCallee(in) == f {
+						calls = true
+					}
+				}
+			}
+			if !calls {
+				continue
+			}
+			top := g
+			for top.Parent() != nil {
+				top = top.Parent()
+			}
+			if top == f {
+				continue
+			}
+			callers++
+			w, ok := visit(top, seen)
+			if !ok {
+				return "", false
+			}
+			why = w
+		}
+		if callers == 0 {
+			return "", false
+		}
+		return "helper called only by reviewed annotation parsers (" + why + ")", true
+	}
+	return visit(fn, map[*ssa.Function]bool{})
 }
